@@ -56,7 +56,8 @@ def user_payload(e):
     """(True, value) if e is an exception made by make_exc, else (False, None)."""
     a = getattr(e, 'args', None)
     if a and isinstance(a[0], tuple) and len(a[0]) == 2 and a[0][0] == 'BOOM':
-        return True, a[0][1]
+        # None (what an absent field reads as) is reported as '<None>': a payload of None means "nothing raised"
+        return True, ('<None>' if a[0][1] is None else a[0][1])
     return False, None
 
 
@@ -574,13 +575,32 @@ def has_errorvalue(form):
 # expected observation
 # ------------------------------------------------------------------------------------------------
 
-def expected(form, tbl, policy, errorvalue=OMIT, selected=None):
+def expected(form, tbl, policy, errorvalue=OMIT, selected=None, state='pure'):
     """Expected observation of one full pass.
 
-    Returns dict(rows=[header, row, ...], raises=None|payload, optional=k):
+    Returns dict(rows=[header, row, ...], raises=None|payload, optional=k, log=[...]):
     `rows` are delivered in order; if `raises` is not None the exception surfaces at the next request after
     them, where the last `optional` rows (produced by a generator for the failing input row before it failed)
-    may or may not have been delivered (any prefix of them)."""
+    may or may not have been delivered (any prefix of them).  `log` is the expected sequence of user-function
+    calls (and of the points where they raise) of the pass."""
+    ctx = Ctx(state)
+    old = swap_ctx(ctx)
+    try:
+        res = _expected(form, tbl, policy, errorvalue, selected)
+    finally:
+        swap_ctx(old)
+    log = ctx.log
+    if res['raises'] is not None:
+        # the pass ends where the exception surfaces: nothing is called after the call that raised
+        for i, entry in enumerate(log):
+            if entry[0] == '!raise':
+                log = log[:i + 1]
+                break
+    res['log'] = log
+    return res
+
+
+def _expected(form, tbl, policy, errorvalue, selected):
     spec = FORMS[form]
     ev = None if errorvalue is OMIT or errorvalue == OMIT else errorvalue
     out = [tuple(spec['header'])]
